@@ -144,7 +144,9 @@ mutual
 def pyRepr : PyVal → Except Exc String
   | .none => .ok "None"
   | .bool b => .ok (if b then "True" else "False")
-  | .int n => .ok (toString n)
+  | .int n =>
+      -- `sys.get_int_max_str_digits()`: more than 4300 digits is a `ValueError` (CPython ≥ 3.11)
+      if n.natAbs ≥ 10 ^ 4300 then .error .valueError else .ok (toString n)
   | .float k => reprFloat k
   | .str s => reprStr s
   | .list xs => do
